@@ -221,6 +221,10 @@ class PureEval:
             if isinstance(st, ast.Assign) and len(st.targets) == 1 and isinstance(st.targets[0], ast.Name):
                 env[st.targets[0].id] = self.ev(st.value, env)
                 continue
+            if isinstance(st, ast.Assign) and len(st.targets) == 1 and isinstance(st.targets[0], (ast.Tuple, ast.List)) \
+                    and all(isinstance(e, ast.Name) for e in st.targets[0].elts):
+                self._bind(st.targets[0], self.ev(st.value, env), env)
+                continue
             if isinstance(st, ast.Raise):
                 raise FevalError("raises")
             if isinstance(st, (ast.Import, ast.ImportFrom, ast.Pass)):
